@@ -1,6 +1,6 @@
 """Generic runner for the scheduler-level properties (layer S)."""
 import copy, json, time
-from common import Driver, short_hash
+from common import Driver, short_hash, known_match
 from layer_e import quantum, NonLattice
 from layer_s import run_impl_s, run_model_s, first_divergence_s, FULL_S
 from elayer import init_world, clause_names
@@ -89,8 +89,16 @@ def run_scenarios_s(ctx, prop, scenarios, proj=FULL_S, max_violations=3, classif
             if lean_scheck(drv, prop, sc, mobs):
                 ctx.sit("model_trace_fails_checker")
             ctx.coverage["traces_validated_against_impl"] = ctx.coverage.get("traces_validated_against_impl", 0) + 1
-            if fails and len(ctx.violations) < max_violations:
+            if fails:
                 names = clause_names(fails)
+                sig0 = {"clause": names[0], "algo": sc["algo"], "multi": sc["cfg"]["multi"]}
+                if known_match(prop, {"sig": sig0}):
+                    ctx.sit("known_finding_hits")
+                    if not any(v["sig"] == sig0 for v in ctx.violations):
+                        ctx.violations.append({"what": f"check_{prop} fails on the implementation trace ({sc['algo']}): {', '.join(names)}",
+                                               "clauses": names, "layer": "S", "scenario": sc, "sig": sig0})
+                    continue
+            if fails and sum(1 for v in ctx.violations if not known_match(prop, v)) < max_violations:
 
                 def bad(c):
                     try:
